@@ -591,6 +591,10 @@ func (w *World) yield(p pendingOp) {
 // Go starts a new task.
 func Go(name string, f func()) {
 	w := W
+	if w == nil { // native mode (see sync.go)
+		go f()
+		return
+	}
 	w.checkDead()
 	w.yield(pendingOp{kind: opSimple, desc: "go " + name})
 	parent := w.cur
@@ -617,11 +621,16 @@ func Go(name string, f func()) {
 // GoDaemon starts a task that is allowed to block for ever (environment helpers).
 func GoDaemon(name string, f func()) {
 	Go(name, f)
-	W.tasks[len(W.tasks)-1].daemon = true
+	if W != nil {
+		W.tasks[len(W.tasks)-1].daemon = true
+	}
 }
 
 // Yield is a plain scheduling point.
 func Yield(desc string) {
+	if W == nil {
+		return
+	}
 	W.yield(pendingOp{kind: opSimple, desc: desc})
 }
 
@@ -640,6 +649,9 @@ func AwaitN(desc string, n int, pred func() bool) {
 
 // YieldN is Yield with a numeric argument shown in traces.
 func YieldN(desc string, n int) {
+	if W == nil {
+		return
+	}
 	W.yield(pendingOp{kind: opSimple, desc: desc, arg: n + 1})
 }
 
